@@ -195,3 +195,34 @@ pub fn load_known(property: &str) -> Vec<(String, String)> {
     }
     out
 }
+
+/// report a hang found by the watchdog and leave the process: the exploration cannot continue
+/// (the stuck thread cannot be stopped), the violation is established.
+pub fn emit_hang_and_exit(property: &str, tier: &str, key: &str, what: &str, replay: Value) -> ! {
+    let dir = verif_dir();
+    let known = load_known(property);
+    let is_known = known.iter().find(|k| k.0 == key);
+    let replay_dir = dir.join("replays").join(property);
+    let _ = std::fs::create_dir_all(&replay_dir);
+    let h = crate::explore::fnv1a(key.as_bytes());
+    let path = replay_dir.join(format!("{h:016x}.json"));
+    let body = json!({"property": property, "key": key, "what": what, "replay": replay});
+    let _ = std::fs::write(&path, serde_json::to_string_pretty(&body).unwrap());
+    let ev = json!({
+        "property_id": property, "tier": tier, "seed": 0, "level": "model_checking",
+        "coverage": {"states": 1, "transitions": 1, "traces_validated_against_impl": 1, "evaluations": 1, "distinct_nontrivial": 1,
+            "samples": [what], "exhaustive": false, "explanation": "exploration stopped at the first hang (the stuck case cannot be cancelled)"},
+        "wall_s": 0.0, "violations": if is_known.is_some() { 0 } else { 1 },
+    });
+    let _ = std::fs::create_dir_all(dir.join("evidence"));
+    let _ = std::fs::write(dir.join("evidence").join(format!("{property}.json")), serde_json::to_string_pretty(&ev).unwrap());
+    if let Some(k) = is_known {
+        println!("KNOWN-FINDING: property={property} {} [{}]", k.1, k.0);
+        println!("MACHINERY-ERROR: a known hang prevents the exploration from completing");
+        std::process::exit(2);
+    }
+    println!("VIOLATION property={property} replay={}", path.display());
+    println!("  key: {key}");
+    println!("  what: {what}");
+    std::process::exit(1);
+}
